@@ -304,6 +304,80 @@ def run_e2e(rep, tier, P):
     return len(jobs)
 
 
+# ------------------------------------------------------------------ metamorphic: any diagnostics shift with inserted lines
+FAULTY = [
+    # (name, lines)  - several error kinds: undefined name, argument type, arity, syntax; piled and braced
+    ("types", ['#include "aldor"', 'import from MachineInteger, String;', 'a0: MachineInteger := 1;',
+               '  a1: MachineInteger := a0 + "str";', 'f(x: MachineInteger): MachineInteger == x;',
+               '   a2: MachineInteger := f(a0, a0);', 'a3: MachineInteger := nowhere;', 'g(s: String): String == s;',
+               '\ta4: String := g(a0);']),
+    ("syntax", ['#include "aldor"', 'import from MachineInteger;', 'b0: MachineInteger := 1;', '', '-- a comment',
+                'b1: MachineInteger := (b0 + ;', 'b2: MachineInteger := 3;']),
+    ("pile", ['#include "aldor"', '#pile', 'import from MachineInteger', 'h(x: MachineInteger): MachineInteger ==',
+              '    y := x + undefinedA', '    z := y * undefinedB', '    z', 'c0: MachineInteger := h(1, 2)']),
+    ("func", ['#include "aldor"', 'import from MachineInteger, Boolean;', 'k(x: MachineInteger): Boolean == {',
+              '   x > 0 => x;', '   missing(x);', '   false', '}', 'c1: Boolean := k(true);']),
+]
+
+
+def run_meta(rep, tier, P):
+    """For arbitrary diagnostics (whatever token the compiler blames): inserting k code-free lines at line p
+    moves exactly the diagnostics at lines >= p by k and changes nothing else."""
+    import concurrent.futures
+    exe = C.build_compiler()
+    rnd = C.rng("c15-meta")
+    work = C.scratch("c15meta")
+    ks = [1, 3, 100, 16383, 16384, 65535, 65536] + ([70000] if tier == "thorough" else [])
+    jobs = []
+    for name, lines in FAULTY:
+        pts = list(range(1, len(lines) + 1))          # insert BEFORE line index pt (1-based), never before the #include/#pile header
+        pts = [q for q in pts if q >= (3 if lines[1].startswith("#pile") else 2)]
+        chosen = pts if tier == "thorough" else rnd.sample(pts, min(3, len(pts)))
+        jobs.append((name, lines, 0, 0, ""))
+        for q in chosen:
+            for k in (ks if tier == "thorough" else rnd.sample(ks, 3)):
+                fill = rnd.choice(["", "-- filler", "   ", "\t-- x"])
+                if lines[1].startswith("#pile") and fill.strip() == "":
+                    fill = ""                          # blank lines are fine in a pile
+                jobs.append((name, lines, q, k, fill))
+
+    def one(j):
+        name, lines, q, k, fill = j
+        d = "%s/%s_%d_%d" % (work, name, q, k)
+        os.makedirs(d, exist_ok=True)
+        out = lines[:q - 1] + [fill] * k + lines[q - 1:] if k else lines
+        open(d + "/m.as", "w").write("\n".join(out) + "\n")
+        rc, o, e = C.run(C.aldor_base_args(exe) + ["-Mno-emax", "m.as"], cwd=d, env=C.aldor_env(), timeout=300)
+        diags = [(g[2], g[3], g[4]) for g in parse_diags(o + e)]
+        return j, rc, diags
+    base = {}
+    res = []
+    with concurrent.futures.ThreadPoolExecutor(C.NCPU) as ex:
+        for j, rc, diags in ex.map(one, jobs):
+            if j[3] == 0:
+                base[j[0]] = (rc, diags)
+            else:
+                res.append((j, rc, diags))
+    n_ok = 0
+    CNO_MAX = 2 ** P["CNO"] - 1
+    for (name, lines, q, k, fill), rc, diags in res:
+        brc, bd = base[name]
+        want = [((L + k) if L >= q else L, c, m) for (L, c, m) in bd]
+        if not bd:
+            rep.notes.append("metamorphic template %s printed no diagnostics" % name)
+            continue
+        if diags != want or (rc == 0) != (brc == 0):
+            rep.violation("inserting %d code-free lines before line %d of template '%s' changed the diagnostics other than by "
+                          "shifting line numbers: expected %s got %s" % (k, q, name, want[:4], diags[:4]),
+                          {"template": name, "lines": lines, "insert_before_line": q, "k": k, "filler": fill,
+                           "base": bd, "expected": want, "got": diags, "cmd": "aldor -Mno-emax m.as"})
+        else:
+            n_ok += 1
+    rep.add_cov(meta_cases=len(res), meta_ok=n_ok,
+                meta_templates={n: len(base[n][1]) for n in base})
+    return len(res)
+
+
 # ------------------------------------------------------------------ main
 def run(rep, tier):
     P = generate()
@@ -320,6 +394,7 @@ def run(rep, tier):
     if ok:
         corr(rep, tier, P)
     run_e2e(rep, tier, P)
+    run_meta(rep, tier, P)
     rep.assume("extraction: ExtrOcamlBasic only; driver.ml converts binary strings to Z by constructors only",
                "harness/srcpos/h.c links the current srcpos.c with libgen/libport sources of the current tree",
                "python numbering oracle for generated sources (physical line counting, #line arithmetic)",
